@@ -151,7 +151,7 @@ func (*c02) Exhaustive(tier string) []any {
 	if tier != "thorough" {
 		return nil
 	}
-	return kubeExhaustive()
+	return append(kubeExhaustive(), objExhaustive()...)
 }
 
 func (*c02) Generate(r *rand.Rand, i int) any {
